@@ -362,6 +362,34 @@ theorem ingest_with_response (c : Crypto) (k : Consts) (cfg : Cfg) (r : Reg) (di
       | d => d :=
   stationIngest_some c k cfg r disable rr R g
 
+/-! ### the bound of the port draw, exactly
+
+`constants_pinned` pins the ranges; this says what the bound means for the draw, with the code's ranges:
+the first 16-bit word `c` of the "phantom-select-dst-port" stream gives port `c + min` iff `c < max − min`;
+the word `max − min` itself (64511 for min / prefix / dtls, 65513 for obfs4) is *rejected* and the next word
+is taken.  A range widened by one accepts that word instead — client and station together — which is what
+the boundary-directed secrets of the harness exercise on the real code. -/
+
+open CJ.ClientSession in
+theorem port_draw_bound (s : Stream) (lim : Nat) (hl : 2 ≤ lim) :
+    ∀ rg ∈ [genConsts.minRange, genConsts.obfs4Range, genConsts.prefixRange, genConsts.dtlsRange],
+      (beNat (readAt s 0 2) < rg.2 - rg.1 →
+        portSelectorRange s lim rg.1 rg.2 = .ok ((beNat (readAt s 0 2) + rg.1) % 65536)) ∧
+      (rg.2 - rg.1 ≤ beNat (readAt s 0 2) → portSelectorRange s lim rg.1 rg.2 =
+        match randIntLoop s lim 2 8 (rg.2 - rg.1) lim 2 with
+        | .ok p => .ok ((p + rg.1) % 65536) | .err _ => .ok 0 | .panic w => .panic w) := by
+  intro rg hrg
+  have h : (rg = (1024, 65535)) ∨ (rg = (22, 65535)) := by
+    have e1 : genConsts.minRange = (1024, 65535) := by decide
+    have e2 : genConsts.obfs4Range = (22, 65535) := by decide
+    have e3 : genConsts.prefixRange = (1024, 65535) := by decide
+    have e4 : genConsts.dtlsRange = (1024, 65535) := by decide
+    simp only [List.mem_cons, List.not_mem_nil, or_false, e1, e2, e3, e4] at hrg
+    rcases hrg with h | h | h | h <;> simp [h]
+  rcases h with h | h <;> subst h
+  · exact portSelectorRange_first_candidate s lim 1024 hl 64511 (by decide) (by decide)
+  · exact portSelectorRange_first_candidate s lim 22 hl 65513 (by decide) (by decide)
+
 /-! ### determinism, totality, containment -/
 
 /-- the derivation is a function of its inputs alone: no dependence on the generator's state -/
